@@ -435,6 +435,14 @@ func (s *Server) dispatch(c *Ctx, name string) (Reply, bool) {
 	return r, true
 }
 
+// AbortTxn silently discards the transaction queued on ss (as if a WATCHed key had changed): the
+// caller then answers EXEC with a nil array.
+func (s *Server) AbortTxn(ss *Session) {
+	ss.multi, ss.queue, ss.dirty = false, nil, false
+	ss.watching = map[string]int64{}
+	ss.caching = 0
+}
+
 // Close tears a session down (client closed the connection or server drops it).
 func (s *Server) Close(ss *Session) {
 	if ss.Closed {
